@@ -169,7 +169,9 @@ def _wallclock(ctx, n):
     # an unlimited depth-1 search does not come back)
     heavy = ['1QqQqQq1/r6Q/Q6q/q6Q/B2q4/q6Q/k6K/1qQ1QqRb w - - 0 1', 'qqqqkqqq/qqqqqqqq/8/8/8/8/QQQQQQQQ/QQQQKQQQ w - - 0 1',
              'rrqqkqrr/qqqqqqqq/8/8/8/8/QQQQQQQQ/RRQQKQRR b - - 0 1']
-    fens = fens + heavy[:2] if n <= 30 else fens + heavy
+    # ... and positions without any capture or promotion in the whole tree (locked pawns): the clock must be read there too
+    quietp = ['4k3/8/8/p1p1p1p1/P1P1P1P1/8/8/4K3 w - - 0 1', '4k3/8/8/p1p1p1p1/P1P1P1P1/8/8/4K3 b - - 0 1']
+    fens = fens + heavy[:2] + quietp[:1] if n <= 30 else fens + heavy + quietp
     margin = generated_const('antiflagMillis')
     e = uci.Engine()
     e.ready()
@@ -544,8 +546,10 @@ def c02(ctx):
                             signature=sig('c02q', r[1], r[2] if len(r) > 2 else ''))
             if len(ctx.v.violations) >= 5:
                 break
+    # make/unmake nesting on nodes with more than 60 moves (perft 1..3 on the WIDE positions against the model)
+    wide02 = wide_stream(ctx, 'w02')
     nontriv = sum(int(stats.get(k, 0)) for k in ('castles', 'ep_captures', 'promotions', 'corner_captures'))
-    return {'evaluations': int(stats.get('plies', 0)) + len(qrows), 'distinct_nontrivial': nontriv, 'search_unwind_sessions': len(qrows),
+    return {'evaluations': int(stats.get('plies', 0)) + len(qrows) + wide02['commands'], 'wide': wide02, 'distinct_nontrivial': nontriv, 'search_unwind_sessions': len(qrows),
             'rule': 'games from the biased playout generator (start position and corpus FENs, every tenth game up to 400 plies); snapshot (board bytes, '
                     'lists in order, kings, flags, ep, ply) after every ply compared with the model; on the engine alone: PushMove vs ApplyUciMove, '
                     'pop restores the previous snapshot, strict list<->board bijection; sessions of searches (completed / deadline / stopped at root or inner nodes) after which the '
@@ -1105,6 +1109,24 @@ def c05(ctx):
                                 signature=sig('c05r', p['fen']))
         if len(ctx.v.violations) >= 5:
             break
+    # the largest evaluations there are (nine queens and every original piece against a bare king, no mate within the horizon):
+    # still centipawns, not a mate announcement
+    extreme = ['8/8/6k1/2RQQN2/3N4/QB1QKR2/QQQ5/1Q2BQ2 b - - 0 1', '8/8/7k/2QRK3/QB1QN3/QQ1Q1Q2/Q1Q5/N3RB2 b - - 0 1',
+               '1q2bq2/qqq5/qb1qkr2/3n4/2rqqn2/6K1/8/8 w - - 0 1']
+    xo = run_oracle(['MMATE\t%s\t2' % f for f in extreme])
+    xjobs = [S.Job(f, 'go depth 1') for f in extreme]
+    S.run_jobs(xjobs, workers=3, per_job_timeout=60)
+    for f, o, j in zip(extreme, xo, xjobs):
+        par = uci.parse_search_output(j.lines or [])
+        its = S.impl_iterations(par)
+        checked += 1
+        if j.died or j.timeout or not its:
+            crash_violation(ctx, {'fen': f, 'job': j}, 'C05')
+            continue
+        kind, val, pv, nodes = its[max(its)]
+        if kind == 'mate' and not o.startswith('MATE '):
+            ctx.v.violation('announced-mate-does-not-exist', {'fen': f, 'go': 'go depth 1', 'engine_final': 'mate %d' % val, 'solver_to_2_plies': o,
+                            'engine_lines': j.lines[-3:], 'note': 'an evaluation of extreme material is printed as a mate'}, signature=sig('c05x', f))
     # forced mates that need an UNDER-promotion inside the tree (the queen stalemates): `go depth 5` against the mate solver
     under = ['8/8/1P6/8/8/8/5KPk/8 w - - 0 1', '8/8/6P1/8/8/8/kPK5/8 w - - 0 1', '8/5kpK/8/8/8/8/1p6/8 b - - 0 1', '8/Kpk5/8/8/8/8/6p1/8 b - - 0 1']
     uo = run_oracle(['MMATE\t%s\t5' % f for f in under])
@@ -1192,6 +1214,10 @@ def c03(ctx):
     for p, fs in zip(pos, forms):
         for go, stop in fs:
             jobs.append(S.Job(p['fen'], go, stop_after=stop, tag=p))
+    # games long enough to carry the int16 game-ply counter past 32767 (negative afterwards), then every go form
+    wrapfen = '4k1n1/8/8/8/8/8/8/4K1N1 w - - 0 15933 moves ' + ' '.join(['g1f3 g8f6 f3g1 f6g8'] * 230)
+    for go, stop in (('go depth 3', None), ('go movetime 100', None), ('go infinite', 0.05), ('go wtime 1000 btime 1000', None)):
+        jobs.append(S.Job(wrapfen, go, stop_after=stop, tag={'fen': wrapfen, 'src': 'plywrap'}))
     S.run_jobs(jobs, workers=8, per_job_timeout=60)
     legal_req = []
     for j in jobs:
@@ -1515,6 +1541,18 @@ def c12(ctx):
             ctx.v.violation(bad[0], d, signature=sched_sig(r, 'c12'))
             if len(ctx.v.violations) >= 5:
                 break
+    # the single bestmove a search ends with after any of these interleavings is a move of the searched position
+    breq, bmeta = [], []
+    for r in rows:
+        bms = [l.split()[1] for l in r['lines'] if l.startswith('bestmove ') and len(l.split()) > 1]
+        if len(bms) == 1 and bms[0] != '0000':
+            breq.append((r['fen'], [bms[0]]))
+            bmeta.append((r, bms[0]))
+    for (r, bm), res in zip(bmeta, S.lines_legal(breq)):
+        if res != -1 and len(ctx.v.violations) < 5:
+            d = sched_desc(r)
+            d['observation'] = 'the search ended with `bestmove %s`, which is not a legal move of the position it searched' % bm
+            ctx.v.violation('search-ended-by-stop-answers-with-an-illegal-move', d, signature=sched_sig(r, 'c12legal'))
     # the shared state step by step against the transition system the theorems are about (Protocol.v): random interleavings of
     # commands and search-thread progress, every poll of the stop channel preceded by a sync point
     pn, psteps = (150, 30) if ctx.quick else (6000, 40)
@@ -1645,6 +1683,11 @@ def c17(ctx):
         f = l.split('\t')
         if len(f) == 5 and f[3] in ('movelist-2rank-beside-pawn', 'corner-promo', 'movelist-2rank') and ' moves ' in f[4]:
             scripts.append([S.pos_cmd(f[4]), 'eval', 'perft 1', 'tperft 1', 'go depth 1', 'isready'])
+    # positions with more than 60 legal moves (long move lists at inner nodes): search and a three-ply walk, then liveness
+    rcw, outw, errw, _ = harness(['widefens', '6'])
+    for l in outw.strip().split('\n'):
+        if '\t' in l:
+            scripts.append(['position fen ' + l.split('\t')[0], 'go depth 2', 'perft 3', 'isready', 'tperft 2', 'eval'])
     nscripts = len(scripts)
     model_raw = run_oracle(['SESS\t' + '\n'.join(s).encode('latin-1', 'replace').hex() for s in scripts])
     models = []
@@ -1773,6 +1816,9 @@ def c18(ctx):
             jobs.append(S.Job(fen, 'go depth 3', tag='movenumber'))
             fen2 = 'r3k2r/p1ppqpb1/bn2pnp1/3PN3/1p2P3/2N2Q1p/PPPBBPPP/R3K2R %s KQkq - 0 %d' % (side, mn)
             jobs.append(S.Job(fen2, 'go depth 2', tag='movenumber'))
+    for hm in (100, 101, 120, 149, 150, 500):
+        jobs.append(S.Job('4k3/8/8/p1p1p1p1/P1P1P1P1/8/8/4K3 w - - %d 200' % hm, 'go depth 6', tag='movenumber'))
+        jobs.append(S.Job('4b1k1/3p1p1p/3P1P1P/8/8/3p1p1p/3P1P1P/4B1K1 b - - %d 300' % hm, 'go depth 12', tag='movenumber'))
     # deepest iterations / unlimited time on blocked positions
     for f in FORTRESSES:
         for go in ['go depth 38', 'go depth 39', 'go depth 40', 'go depth 41', 'go depth 100', 'go depth 100000', 'go wtime 60000 btime 60000', 'go movetime 1500', 'go']:
@@ -1880,6 +1926,7 @@ def c19(ctx):
         trials.append(('position-while-searching', ['position startpos', 'go infinite', ('sleep', 0.3), 'position startpos moves e2e4 e7e5'], end, 0.0))
         trials.append(('position-while-searching', ['position startpos', 'go depth 30', ('sleep', 0.2), 'position fen 4k3/8/8/8/8/8/8/4K2R w K - 0 1', 'isready'], end, 0.05))
         trials.append(('huge-line', [shuffle_line, 'isready'], end, 0.0))
+        trials.append(('one-ply-search-that-runs-for-minutes', ['position fen qqqqkqqq/qqqqqqqq/8/8/8/8/QQQQQQQQ/QQQQKQQQ w - - 0 1', 'go depth 1', ('sleep', 0.3)], end, 0.0))
         trials.append(('huge-line-while-searching', ['position startpos', 'go infinite', 'x' * 2000000, 'isready'], end, 0.0))
     trials.append(('huge-line', ['position startpos moves ' + ' '.join(['g1f3 g8f6 f3g1 f6g8'] * 150000)], 'quit', 0.0))
     bad = 0
